@@ -162,7 +162,9 @@ func c20Standalone(sel int, seed []byte) func() *c20Val {
 		v6(func() dhcpv6.Option {
 			return &dhcpv6.Opt4RDMapRule{Prefix4: net.IPNet{IP: net.IP{10, 200, 3, 4}, Mask: net.CIDRMask(12, 32)}, Prefix6: net.IPNet{IP: net.IP(bs(0, 16)), Mask: net.CIDRMask(40, 128)}, EABitsLength: 5}
 		}),
-		v6(func() dhcpv6.Option { return dhcpv6.OptClientID(&dhcpv6.DUIDLLT{HWType: 1, Time: 7, LinkLayerAddr: bs(0, 6)}) }),
+		v6(func() dhcpv6.Option {
+			return dhcpv6.OptClientID(&dhcpv6.DUIDLLT{HWType: 1, Time: 7, LinkLayerAddr: bs(0, 6)})
+		}),
 	}
 	return table[((sel%len(table))+len(table))%len(table)]
 }
